@@ -31,6 +31,10 @@ type watchOp struct {
 type watchScenario struct {
 	ID  int       `json:"id"`
 	Ops []watchOp `json:"ops"`
+	// Early: do not wait for the four watches before the operations start (a cancellation may land while the watcher is
+	// still setting itself up).  Missing: one of the four directories that does not exist when the watcher starts.
+	Early   bool   `json:"early"`
+	Missing string `json:"missing"`
 }
 
 type watchLine struct {
@@ -42,6 +46,7 @@ type watchLine struct {
 	Late      bool     `json:"late"`      // the consumer was paused at some point
 	Closed    bool     `json:"closed"`    // the notification stream ended after cancellation
 	Watches   int      `json:"watches"`
+	Expect    int      `json:"expect"`  // watches expected once established (-1: not waited for)
 	Crashed   bool     `json:"crashed"` // written by the driver when the process was taken down during this scenario
 	Msg       string   `json:"msg"`
 }
@@ -88,12 +93,22 @@ func runWatchScenario(root string, sc watchScenario) (watchLine, error) {
 			return line, err
 		}
 	}
+	line.Expect = 4
+	if sc.Missing != "" {
+		os.RemoveAll(filepath.Join(root, sc.Missing))
+		line.Expect = 3
+	}
 	before := inotifyWatches()
 	ctx, cancel := context.WithCancel(context.Background())
 	ch := config.DetectDeviceConfigChanges(ctx)
-	deadline := time.Now().Add(5 * time.Second)
-	for inotifyWatches()-before < 4 && time.Now().Before(deadline) {
-		time.Sleep(time.Millisecond)
+	if sc.Early {
+		line.Expect = -1
+	} else {
+		deadline := time.Now().Add(5 * time.Second)
+		for inotifyWatches()-before < line.Expect && time.Now().Before(deadline) {
+			time.Sleep(time.Millisecond)
+		}
+		time.Sleep(2 * time.Millisecond)
 	}
 	line.Watches = inotifyWatches() - before
 	var got int64
@@ -281,7 +296,7 @@ func cmdWatcher(args []string) error {
 	for _, sc := range scs {
 		if p := os.Getenv("VERIFH_CUR"); p != "" { // which scenario is running, should the runtime abort the process
 			w.Flush()
-			b, _ := json.Marshal(watchLine{Ev: "watcher", ID: sc.ID, Writes: []string{}, Crashed: true, Cancelled: true, Watches: 4})
+			b, _ := json.Marshal(watchLine{Ev: "watcher", ID: sc.ID, Writes: []string{}, Crashed: true, Cancelled: true, Watches: 4, Expect: 4})
 			os.WriteFile(p, b, 0o666)
 		}
 		// the watcher uses paths relative to the working directory: one scenario at a time
